@@ -11,6 +11,7 @@ import P2PVerif.Driver.DHTNode
 import P2PVerif.Driver.Asker
 import P2PVerif.Driver.Hub
 import P2PVerif.Driver.Stack
+import P2PVerif.Driver.Src
 open P2PVerif.Driver
 
 def streams : List (String × Stream) := [
@@ -27,6 +28,7 @@ def streams : List (String × Stream) := [
   ("ask", askStream),
   ("hub", hubStream),
   ("stack", stackStream),
+  ("src", srcStream),
   ("replay", replayStream)
 ]
 
